@@ -63,6 +63,12 @@ fn gen_id<T: Copy + Into<u64>>(v: T, k: u64) -> u64 {
 }
 
 #[inline(never)]
+fn one(v: u64) -> u64 { tick!(); v.wrapping_mul(0x2545F4914F6CDD1D) ^ 0x51 }
+
+#[inline(never)]
+fn onerec(n: u64, v: u64) -> u64 { tick!(); if n == 0 { v } else { onerec(n - 1, v.rotate_left(5) ^ n) } }
+
+#[inline(never)]
 fn apply<F: Fn(u64) -> u64>(f: F, v: u64) -> u64 {
     tick!(); let r = f(v);
     tick!(); mix(r);
@@ -78,6 +84,7 @@ class Ctx:
         self.budget = budget
         self.funcs = []       # sidecar entries
         self.cost = {}        # fn name -> estimated dynamic statements
+        self.signals = False
 
     def emit(self, s):
         self.lines.append(s)
@@ -131,7 +138,7 @@ def gen_body(cx, name, depth, callees, indent, max_stmts, stmt_lines, in_loop=1)
             stmt_lines.append(ln)
             cx.emit(f'{pad}}}')
             cost += 1 + it * (c1 + 1)
-        elif k < 0.82:
+        elif k < 0.80:
             it = rng.randint(2, 4)
             ln = cx.emit(f'{pad}tick!(); for j{depth} in 0..{it}u64 {{')
             stmt_lines.append(ln)
@@ -139,11 +146,21 @@ def gen_body(cx, name, depth, callees, indent, max_stmts, stmt_lines, in_loop=1)
             stmt_lines.append(ln)
             cx.emit(f'{pad}}}')
             cost += 1 + it * 2
-        elif k < 0.88:
+        elif k < 0.87:
+            st = rng.choice(['x = one(x);', 'x = onerec({n}, x);', 'x = (|v: u64| {{ tick!(); v.wrapping_add({c}) }})(x);',
+                             'x = one(onerec({n}, x));'])
+            ln = cx.emit(f'{pad}tick!(); ' + st.format(n=rng.randint(1, 4), c=_const(rng)))
+            stmt_lines.append(ln)
+            cost += 8
+        elif k < 0.885 and cx.signals:
+            ln = cx.emit(f'{pad}tick!(); sig_me(x);')
+            stmt_lines.append(ln)
+            cost += 30
+        elif k < 0.91:
             ln = cx.emit(f'{pad}tick!(); x = apply(|v| v.wrapping_mul({_const(rng)}) ^ x, x >> 3);')
             stmt_lines.append(ln)
             cost += 5
-        elif k < 0.94:
+        elif k < 0.96:
             sh = rng.choice(['&Sq(x & 0xff)', '&Tri(x & 0xf, 7)'])
             ln = cx.emit(f'{pad}tick!(); {{ let s: &dyn Shape = {sh}; x = x.wrapping_add(s.area({_const(rng)})); }}')
             stmt_lines.append(ln)
@@ -156,11 +173,33 @@ def gen_body(cx, name, depth, callees, indent, max_stmts, stmt_lines, in_loop=1)
     return cost
 
 
-def gen(seed, budget=1500, nfuncs=None, rec_depth=None):
+SIG_PRELUDE = '''
+extern "C" {
+    fn raise(sig: i32) -> i32;
+    fn signal(sig: i32, handler: usize) -> usize;
+}
+static mut SIG_SEEN: u64 = 0;
+extern "C" fn on_sig(_s: i32) {
+    unsafe { SIG_SEEN = SIG_SEEN.wrapping_add(1) }
+}
+#[inline(never)]
+fn sig_me(v: u64) {
+    tick!(); let which = if v & 1 == 0 { 10 } else { 12 };
+    tick!(); unsafe { raise(which); }
+    tick!(); mix(unsafe { SIG_SEEN });
+}
+'''
+
+
+def gen(seed, budget=1500, nfuncs=None, rec_depth=None, signals=False):
     rng = random.Random(seed)
     cx = Ctx(rng, budget)
+    cx.signals = signals
     for l in PRELUDE.rstrip('\n').split('\n'):
         cx.emit(l)
+    if signals:
+        for l in SIG_PRELUDE.rstrip('\n').split('\n'):
+            cx.emit(l)
     cx.emit('')
     nfuncs = nfuncs or rng.randint(4, 8)
     callees = []
@@ -230,10 +269,14 @@ def gen(seed, budget=1500, nfuncs=None, rec_depth=None):
     # main
     decl = cx.emit('fn main() {')
     sl = []
+    if signals:
+        sl.append(cx.emit('    tick!(); unsafe { signal(10, on_sig as usize); signal(12, on_sig as usize); }'))
     sl.append(cx.emit(f'    tick!(); let mut x: u64 = black_box({rng.randint(1, 1 << 40)});'))
     total = 0
     order = list(cx.funcs[:nfuncs])
     rng.shuffle(order)
+    if signals:
+        sl.append(cx.emit('    tick!(); sig_me(x);'))
     for ent in order:
         c = cx.cost[ent['name']]
         if total + c > budget:
@@ -251,7 +294,7 @@ def gen(seed, budget=1500, nfuncs=None, rec_depth=None):
     src = '\n'.join(cx.lines) + '\n'
     side = {'family': 'flow', 'seed': seed, 'funcs': cx.funcs, 'rec_depth': rd, 'mutual_depth': md,
             'est_cost': total + cx.cost['rec'] + cx.cost['ping'],
-            'prelude_funcs': ['mix', 'gen_id', 'apply', 'area']}
+            'prelude_funcs': ['mix', 'gen_id', 'apply', 'area', 'one', 'onerec'], 'signals': signals}
     return src, side
 
 
